@@ -29,7 +29,7 @@ structure Solver where
   respond : σ → Cmd → σ × Reply
 
 /-- the strict reference front end (with some decision oracle) as a solver process -/
-def Solver.strict (O : Oracle) : Solver := ⟨State × O.ω, (State.init, O.init), StrictSolver.respond O⟩
+@[reducible] def Solver.strict (O : Oracle) : Solver := ⟨State × O.ω, (State.init, O.init), StrictSolver.respond O⟩
 
 inductive Event
   | send (c : Cmd)
